@@ -11,6 +11,7 @@ without which the distribution is wrong for EVERY stream (rule text and implemen
   R4-assignment     xoprob := mapfn(sequential distance of interpolated positions); +inf at every chromosome start; mapfn(+inf) = 1/2
                     "with crossover probability one half at every chromosome start ... each of the two parental copies is transmitted with probability one half"
   C02-R5-generator  every mat_mate / mat_dh call of the seven protocols passes pgmat.vrnt_xoprob and self.rng
+  C02-R6-carry      the progeny matrix of every protocol carries the parents' vrnt_xoprob and map coordinates under their own names (later generations)
 """
 from rules import c01, c11
 from sa.model import AnalysisError
@@ -23,9 +24,9 @@ def run(prog, rep, tier):
     rep.not_decided = ["every distributional limit (convergence of realised recombination fractions, independence across intervals as a statistical fact)",
                        "Haldane composition for non-adjacent markers as a numerical fact"]
     rep.only_rules = {"C02-R1-uniforms", "C02-R2-alignment", "C02-R3-toggle", "R3-crossover", "R2-sequential", "R6-xoprob", "R1-formulas",
-                      "C02-R5-generator"}
+                      "C02-R5-generator", "C02-R6-carry"}
     for r, n in (("C02-R1-uniforms", 2), ("C02-R2-alignment", 2), ("C02-R3-toggle", 2), ("R3-crossover", 2), ("R2-sequential", 2),
-                 ("R6-xoprob", 1), ("R1-formulas", 14), ("C02-R5-generator", 7)):
+                 ("R6-xoprob", 1), ("R1-formulas", 14), ("C02-R5-generator", 7), ("C02-R6-carry", 7)):
         rep.floor(r, n)
     c01.run_meiosis_rules(prog, rep)
     c11.check_mapfns(prog, rep)
